@@ -32,6 +32,7 @@ type Clause struct {
 
 // LocalRef is a function-local variable mentioned by a loop clause.
 type LocalRef struct {
+	Entry bool // entry value of the parameter called Name[len("gvcentry_"):]
 	Name string
 	Type string
 	Pos  token.Pos // declaration position in the phase-1 fileset
@@ -491,6 +492,10 @@ func matchClose(s string, i int) int {
 	return -1
 }
 
+// oldArgRewrite, when set, rewrites the argument text of every old(...) (loop clauses: the
+// function's parameters inside old() denote their entry values, not the current ones).
+var oldArgRewrite func(string) string
+
 var quantRe = regexp.MustCompile(`^\(\s*(forall|exists)\s+`)
 var oldRe = regexp.MustCompile(`\bold\s*(\[[^\]]+\])?\s*\($`)
 
@@ -578,6 +583,9 @@ func desugarGroups(s string, oldType func(string) (string, error)) (string, erro
 					}
 				} else {
 					return "", fmt.Errorf("old(%s): type needed, write old[T](...)", arg)
+				}
+				if oldArgRewrite != nil {
+					arg = oldArgRewrite(arg)
 				}
 				// cut "old" / "old[T]" from the prefix
 				loc := oldRe.FindStringIndex(prefix + "(")
